@@ -441,7 +441,10 @@ func (w *World) opGet(op Op) *Resp {
 			} else if r.Code == 200 {
 				// allowed only for a digest that is still listed as a child by a present index (re-derivable)
 				// or whose delete the history did not ask for
-				if !(mr.isChildOfPresent(d) && mr.blobs[d] != nil) {
+				if mr.ghosts[d] && !mr.isChildOfPresent(d) {
+					w.x.viol([]string{"C03"}, "manifest.resurrected", "by digest [child of a deleted index]", fmt.Sprintf("%s %s answered 200 but the manifest was deleted, and so was the index that listed it as a child", method, path))
+					w.x.resync()
+				} else if !(mr.isChildOfPresent(d) && mr.blobs[d] != nil) {
 					if !w.knownElsewhere(repo, d, r) {
 						w.x.viol([]string{"C03", "C16"}, "manifest.resurrected", "by digest", fmt.Sprintf("%s %s answered 200 but the manifest is not present per the API history", method, path))
 					}
@@ -589,11 +592,12 @@ func (w *World) opDelete(op Op) *Resp {
 		case ok:
 			if r.Code == 202 {
 				w.deleteManifest(mr, d)
-			} else if r.Code == 404 {
+			} else if r.Code == 404 && mr.causeOf(d) == "" {
+				// (a manifest of a known family may be unreachable for this request only and served again later)
 				w.deleteManifest(mr, d)
 			}
 		default:
-			if r.is2xx() && !(mr.isChildOfPresent(d)) {
+			if r.is2xx() && !(mr.isChildOfPresent(d) || mr.ghosts[d]) {
 				w.x.viol([]string{"C03"}, "delete.status", "absent manifest -> 2xx", fmt.Sprintf("DELETE of absent manifest %s answered %d", d, r.Code))
 			}
 		}
@@ -604,9 +608,14 @@ func (w *World) opDelete(op Op) *Resp {
 
 func (w *World) deleteManifest(mr *MRepo, d string) {
 	if x, ok := mr.mans[d]; ok {
+		if mr.isChildOfPresent(d) && mr.blobs[d] != nil {
+			mr.ghosts[d] = true
+		}
 		for _, c := range x.view.children {
 			if _, ok := mr.mans[c]; ok {
 				mr.orphans[c] = "child of a deleted index"
+			} else if mr.blobs[c] != nil {
+				mr.ghosts[c] = true
 			}
 		}
 		for ad, a := range mr.mans {
